@@ -287,3 +287,26 @@ def unwrap_iter(tm):
             and len(tm[2]) == 1:
         tm = tm[2][0]
     return tm
+
+
+def buffer_tests_feasible(p: Path, build_q: str) -> bool:
+    """an encoded SOME/IP header is never empty (>= 16 bytes), an untouched bytearray() / bytes() is: the emptiness tests a
+    path made on buffers assembled from them (`if msgbuf:`) are decided accordingly; a path that contradicts is no
+    execution.  Tests on anything else are left alone."""
+    from .absint import eval_term
+
+    def leaf(tm):
+        if tm[0] == "call" and tm[1][0] == "bound" and tm[1][2] == build_q:
+            return b"h" * 16
+        if tm[0] == "call" and tm[1] in (("ext", "bytearray"), ("ext", "bytes")) and not tm[2]:
+            return b""
+        if tm[0] == "call" and tm[1][0] == "attr" and tm[1][2] == "join" and len(tm[2]) == 1 and not tm[3]:
+            return bytes(eval_term(tm[1][1], leaf)).join(bytes(x) for x in eval_term(tm[2][0], leaf))
+        raise AnalysisError("other")
+    for c, v, _, _ in p.conds:
+        try:
+            if bool(eval_term(c, leaf)) != v:
+                return False
+        except AnalysisError:
+            continue
+    return True
